@@ -101,6 +101,43 @@ theorem inter_exact_below_capacity (cap : Nat) (hc : 2 ≤ cap) (l r : Ivs) (hl 
     (hlen : l.length * r.length < cap) (x : Int) : Mem x (inter cap l r) ↔ Mem x l ∧ Mem x r :=
   inter_exact cap hc l r hl hr hlen x
 
+/-- the union is exact (not merely a superset) while `|l| + |r|` stays below the capacity -/
+theorem union_exact_below_capacity (cap : Nat) (hc : 2 ≤ cap) (l r : Ivs) (hl : Good cap l) (hr : Good cap r)
+    (hlen : l.length + r.length < cap) (x : Int) : Mem x (union cap l r) ↔ Mem x l ∨ Mem x r :=
+  (union_exact cap hc l r hl hr hlen x).1
+
+/-- **Lattice laws, as sets, below the capacity regime**: union and intersection denote the same sets whichever operand comes
+first (the code folds the shorter operand into the longer one, so the two calls run different loops), and they absorb each
+other: `l ∩ (l ∪ r) = l = l ∪ (l ∩ r)` as sets.  Beyond the bounds only the superset theorems above hold — by design, the
+collapse to the hull loses exactness, never soundness. -/
+theorem union_comm_sem (cap : Nat) (hc : 2 ≤ cap) (l r : Ivs) (hl : Good cap l) (hr : Good cap r)
+    (hlen : l.length + r.length < cap) (x : Int) : Mem x (union cap l r) ↔ Mem x (union cap r l) := by
+  rw [union_exact_below_capacity cap hc l r hl hr hlen, union_exact_below_capacity cap hc r l hr hl (by omega)]
+  exact Or.comm
+
+theorem inter_comm_sem (cap : Nat) (hc : 2 ≤ cap) (l r : Ivs) (hl : Good cap l) (hr : Good cap r)
+    (hlen : l.length * r.length < cap) (x : Int) : Mem x (inter cap l r) ↔ Mem x (inter cap r l) := by
+  rw [inter_exact cap hc l r hl hr hlen, inter_exact cap hc r l hr hl (by rw [Nat.mul_comm]; exact hlen)]
+  exact And.comm
+
+theorem inter_union_absorb (cap : Nat) (hc : 2 ≤ cap) (l r : Ivs) (hl : Good cap l) (hr : Good cap r)
+    (hlen : l.length * (l.length + r.length) < cap) (hlen2 : l.length + r.length < cap) (x : Int) :
+    Mem x (inter cap l (union cap l r)) ↔ Mem x l := by
+  have hu := union_exact cap hc l r hl hr hlen2
+  have hg := union_good cap hc l r hl hr
+  have hb : l.length * (union cap l r).length < cap :=
+    Nat.lt_of_le_of_lt (Nat.mul_le_mul_left _ (hu x).2) hlen
+  rw [inter_exact cap hc l _ hl hg hb, (hu x).1]
+  exact ⟨fun h => h.1, fun h => ⟨h, Or.inl h⟩⟩
+
+theorem union_idem_sem (cap : Nat) (hc : 2 ≤ cap) (l : Ivs) (hl : Good cap l) (hlen : l.length + l.length < cap) (x : Int) :
+    Mem x (union cap l l) ↔ Mem x l := by
+  rw [union_exact_below_capacity cap hc l l hl hl hlen]; exact or_self_iff
+
+theorem inter_idem_sem (cap : Nat) (hc : 2 ≤ cap) (l : Ivs) (hl : Good cap l) (hlen : l.length * l.length < cap) (x : Int) :
+    Mem x (inter cap l l) ↔ Mem x l := by
+  rw [inter_exact cap hc l l hl hl hlen]; exact and_self_iff
+
 /-- Non-vacuity of the partial statement, and a yes / no pair. -/
 example : Good 128 [(0, 1), (5, 9)] ∧ Good 128 [(0, 3), (4, 20)] ∧ isSubsetOf 128 [(0, 1), (5, 9)] [(0, 3), (4, 20)] = true ∧
     isSubsetOf 128 [(0, 3), (4, 20)] [(0, 1), (5, 9)] = false := by
